@@ -20,7 +20,8 @@ File format (line oriented):
 Edit kinds (DESIGN.md 2.1): signature, replace (with kind=abstract-call|abstract-op|pattern-norm|
 drop-log|sink|de-async|type-stub), desugar-for, name-return, contract (at=signature|loop:K|
 before|after with anchor=`...` nth=N), lift-block (a closure/loop/inner block of the located fn becomes the
-function under contract), abstract-span (anchor + following bracket group + tail replaced by a stand-in call).
+function under contract), abstract-span (anchor + following bracket group + tail replaced by a stand-in call), desugar-iter-chain
+(source.filter/map/filter_map/skip_while/take_while/enumerate[.collect()] chains become an explicit loop pushing into a Vec).
 """
 import re
 import shlex
@@ -191,6 +192,8 @@ def apply_edits(item, edits, twin_false=False):
             item.lift_block(at["anchor"], int(at.get("nth", "1")), e["a"], at.get("why", ""))
         elif k == "abstract-span":
             item.abstract_span(at["anchor"], int(at.get("nth", "1")), at.get("tail", ""), e["a"], at.get("why", ""))
+        elif k == "desugar-iter-chain":
+            item.desugar_iter_chain(at["source"], int(at.get("nth", "1")), at["elem"], at.get("out", "__out"))
         elif k == "desugar-for":
             item.desugar_for(int(at["loop"]), at.get("it", "vit"))
         elif k == "sinks":
